@@ -1,3 +1,58 @@
-import JjModel.Model.Conflicts
+import JjModel.Lemmas.ConflictParse
+/-!
+  C05 — Materialized conflicts parse back to the same conflict.
+
+  `materializeHunks` / `parseConflict` are the model of `materialize_conflict_hunks` /
+  `parse_conflict` (`Model/Conflicts.lean`); the hunk list is what `files::merge_hunks` returns.
+-/
 namespace JjModel.C05
+open JjModel.Conflicts JjModel.Generated
+
+/-- Well-formedness of a hunk list, as `files::merge_hunks` produces it for an `n`-sided conflict
+and as seen by a parser looking for markers of length ≥ `len` (decidable):
+* `len ≥ 1`, and there is at least one unresolved hunk;
+* resolved hunks are non-empty, never adjacent, and end with `\n` unless last;
+* unresolved hunks have `2n-1` terms; only the last hunk may have a term without final `\n`;
+* no line of any term is a conflict marker of length ≥ `len` (`ContentOK`). -/
+structure HunksWF (n len : Nat) (hs : List (List Bytes)) : Prop where
+  len_pos : 1 ≤ len
+  has_conflict : hs.any (·.length ≠ 1) = true
+  hunks : HunksWFAux n len hs
+
+instance (n len : Nat) (hs : List (List Bytes)) : Decidable (HunksWF n len hs) :=
+  decidable_of_iff (1 ≤ len ∧ hs.any (·.length ≠ 1) = true ∧ HunksWFAux n len hs)
+    ⟨fun ⟨a, b, c⟩ => ⟨a, b, c⟩, fun ⟨a, b, c⟩ => ⟨a, b, c⟩⟩
+
+theorem conflict_of_wf {n len : Nat} {hs : List (List Bytes)} (hwf : HunksWFAux n len hs) :
+    ∀ h ∈ hs, h.length ≠ 1 → h.length % 2 = 1 ∧ ∀ c ∈ h, ContentOK len c := by
+  induction hs with
+  | nil => simp
+  | cons x rest ih =>
+    unfold HunksWFAux at hwf
+    obtain ⟨hx, hrest⟩ := hwf
+    intro h hh hne
+    rcases List.mem_cons.mp hh with rfl | hmem
+    · split at hx
+      · simp at hne
+      · exact ⟨hx.1, hx.2.2.1⟩
+    · exact ih hrest h hmem hne
+
+/-- **(a) Snapshot style.** A well-formed hunk list, materialized in the snapshot style with any
+labels free of line terminators and either EOL, parses back to exactly the same hunk list. -/
+theorem parse_materialize_snapshot (diffFn : DiffFn) (n len : Nat) (hs : List (List Bytes))
+    (labels : List Bytes) (eol : Bytes) (hwf : HunksWF n len hs) (hl : LabelsOK labels)
+    (he : IsEol eol) :
+    parseConflict (materializeHunks diffFn hs .snapshot len labels eol) n len = some hs := by
+  refine parse_materialize_of_render diffFn .snapshot n len hwf.len_pos labels eol he hs ?_
+    hwf.hunks hwf.has_conflict
+  intro h hh hne ci nc
+  obtain ⟨hodd, hc⟩ := conflict_of_wf hwf.hunks h hh hne
+  exact ⟨fun hall => snapshot_renders_eol diffFn len hwf.len_pos eol he labels hl h hodd hc hall ci nc,
+    fun hall => snapshot_renders_noeol diffFn len hwf.len_pos eol he labels hl h hodd hc hall ci nc⟩
+
+/-- non-vacuity: a 2-sided conflict between resolved context, the last side lacking the final EOL,
+with a short marker look-alike in the content -/
+example : HunksWF 2 7 [[[97, 10]], [[98, 10], [60, 60, 60, 10], []], [[99, 10]], [[100], [], [101, 10]]] := by
+  decide
+
 end JjModel.C05
